@@ -4,8 +4,8 @@
     common prefix of the two keys' bit strings ([msb_bits]: most significant bit
     of each byte first). *)
 From Coq Require Import ZArith List Bool.
-From Low Require Import Lib.Bits Lib.BitSeq Lib.Lex Lib.Bytes Lib.LexExtra_sig Model.Sigbits Model.Sigbits32 Spec.SigbitsSpec
-  Spec.SigbitsSpec16x Proofs.SigbitsFirstDiff Proofs.SigbitsCountPrefixes Proofs.SigbitsMeaning Proofs.SigbitsCounters Proofs.SigbitsOrder Proofs.Sigbits32Proofs.
+From Low Require Import Lib.Bits Lib.BitSeq Lib.Lex Lib.Bytes Lib.LexExtra_sig Model.Sigbits Model.Sigbits32 Model.SigbitsQueries Spec.SigbitsSpec
+  Spec.SigbitsSpec16x Proofs.SigbitsFirstDiff Proofs.SigbitsCountPrefixes Proofs.SigbitsMeaning Proofs.SigbitsCounters Proofs.SigbitsOrder Proofs.Sigbits32Proofs Proofs.SigbitsQueriesProofs.
 Import ListNotations.
 Open Scope Z_scope.
 
@@ -231,4 +231,42 @@ Proof.
   split; [repeat constructor; vm_compute; discriminate|].
   split; [vm_compute; reflexivity|].
   eexists; split; [vm_compute; reflexivity|vm_compute; reflexivity].
+Qed.
+
+(** * One SigBits object, any sequence of queries (Model/SigbitsQueries.v): repeated, overlapping or
+      nested ranges in any order -- every answer is the specification's, i.e. the one a fresh
+      object would give; unbounded in the number of queries *)
+Theorem C16_queries : forall keys qs,
+  keys <> [] -> keys_ok keys -> strict_asc keys -> keys_i32 keys -> Forall (query_ok keys) qs ->
+  exists sb, New keys = Some sb /\ run_queries sb qs = Some (spec_queries keys qs).
+Proof. exact queries_exact. Qed.
+Print Assumptions C16_queries.
+
+(** the linear oracle used for key sets of more than a thousand keys (op
+    sigbits.CountPrefixes/counter-big) is the naive specification on the property's domain *)
+Theorem C16_spec_fast_agrees : forall keys s e m,
+  keys_ok keys -> strict_asc keys -> 0 <= s -> s + 1 <= e -> e <= zlen keys ->
+  spec_CountPrefixes_fast keys s e m = spec_CountPrefixes keys s e m.
+Proof. exact spec_CountPrefixes_fast_agrees. Qed.
+Print Assumptions C16_spec_fast_agrees.
+
+Example C16_queries_nonvacuous :
+  let keys := [[107;0;254]; [107;0;255]; [107;1;0]; [107;1;1]; [107;1;2]] in
+  counter_keys [107] 2 254 5 = keys /\
+  keys <> [] /\ keys_ok keys /\ strict_asc keys /\ keys_i32 keys /\
+  Forall (query_ok keys) [(1, 4, 3); (1, 4, 3); (0, 5, 11); (2, 5, 2)] /\
+  (exists sb, New keys = Some sb /\
+     run_queries sb [(1, 4, 3); (1, 4, 3); (0, 5, 11); (2, 5, 2)] =
+     Some [(15, [1; 2; 2]); (15, [1; 2; 2]); (15, [1; 2; 2; 2; 2; 2; 2; 2; 3; 5; 5]); (22, [1; 2])]) /\
+  spec_CountPrefixes_fast keys 0 5 11 = (15, [1; 2; 2; 2; 2; 2; 2; 2; 3; 5; 5]).
+Proof.
+  cbv zeta.
+  split; [vm_compute; reflexivity|].
+  split; [discriminate|].
+  split; [apply keys_okb_ok; reflexivity|].
+  split; [apply strict_ascb_ok; reflexivity|].
+  split; [repeat constructor; vm_compute; discriminate|].
+  split; [repeat (apply Forall_cons || apply Forall_nil); vm_compute; intuition discriminate|].
+  split; [eexists; split; [vm_compute; reflexivity|vm_compute; reflexivity]|].
+  vm_compute. reflexivity.
 Qed.
